@@ -754,10 +754,27 @@ pub fn gen_history_with(seed: u64, focus: &str, thorough: bool, forced: Option<V
                 }
             }
         }
+        // C05: "building never changes any of this" also for a build that is cancelled, and for a retry in
+        // the same transaction; such a transaction is always aborted
+        let mut force_abort = false;
+        if focus == "C05" && !skip_builds && !builds_pending.is_empty() && r.chance(8, 100) {
+            if let Some(bi) = steps.iter().rposition(|s| matches!(s, Step::Build { .. })) {
+                if let Step::Build { ix, n_trees, split_after, mem, seed, .. } = steps[bi].clone() {
+                    if let Step::Build { fault, .. } = &mut steps[bi] {
+                        *fault = Fault::CancelAt { n: r.below(120) };
+                    }
+                    steps.truncate(bi + 1);
+                    if r.chance(2, 3) {
+                        steps.push(Step::Build { ix, n_trees, split_after, mem, seed: seed ^ 1, fault: Fault::None });
+                    }
+                    force_abort = true;
+                }
+            }
+        }
         if r.chance(k.upgrade_pct, 100 * rounds as u64) || (k.upgrade_pct > 0 && round + 1 == rounds) {
             steps.push(Step::Upgrade { aborted: r.chance(1, 5) });
         }
-        if r.chance(85, 100) {
+        if !force_abort && r.chance(85, 100) {
             steps.push(Step::Commit);
             committed = shadows.iter().map(|s| (s.live.clone(), s.metric)).collect();
         } else {
